@@ -217,6 +217,70 @@ func checkC17(c *Check) {
 		ok, msg := splitComplement(p, fi)
 		c.Hold("R5", "address.Split", fi.Decl.Pos(), ok, msg)
 	}
+
+	// ---- R7: bytes are not characters. Quoting and unquoting copy the characters of the local part one by one; the
+	// two directions undo each other only if both take the string apart the same way – by decoding (range over the
+	// string). A loop over bytes that converts each byte to a rune (or a one-character string) re-encodes every byte
+	// >= 0x80 as a code point of its own: `é` comes back as `Ã©`, and the quoted form no longer unquotes to the input.
+	c.Rule("R7", "framework/address, framework/dns: a byte of a string is never converted to a rune or to a string (rune(s[i]), string(s[i])); the functions that copy an address character by character range over the string", 2)
+	nLoops := 0
+	for _, rel := range []string{"framework/address", "framework/dns"} {
+		pk := p.Pkg(rel)
+		if pk == nil {
+			c.Fail("R7", rel, token.NoPos, "anchor unresolved")
+			continue
+		}
+		info := pk.TypesInfo
+		p.AllFuncs([]*packagesPkg{pk}, func(fi *FuncInfo) {
+			if strings.HasSuffix(p.Fset.Position(fi.Decl.Pos()).Filename, "_test.go") {
+				return
+			}
+			msg := ""
+			loops := 0
+			ast.Inspect(fi.Decl.Body, func(n ast.Node) bool {
+				switch x := n.(type) {
+				case *ast.RangeStmt:
+					if tv, ok := info.Types[x.X]; ok && isStringType(tv.Type) && x.Value != nil {
+						loops++
+					}
+				case *ast.CallExpr:
+					if len(x.Args) != 1 {
+						return true
+					}
+					tv, ok := info.Types[x.Fun]
+					if !ok || !tv.IsType() {
+						return true
+					}
+					at := info.TypeOf(x.Args[0])
+					ab, isB := at.(*types.Basic)
+					if at == nil || !isB || ab.Kind() != types.Uint8 {
+						if at == nil {
+							return true
+						}
+						if ub, isUB := at.Underlying().(*types.Basic); !isUB || ub.Kind() != types.Uint8 {
+							return true
+						}
+					}
+					if atv, has := info.Types[x.Args[0]]; has && atv.Value != nil {
+						return true // a constant
+					}
+					tb, isTB := tv.Type.Underlying().(*types.Basic)
+					if isTB && (tb.Kind() == types.Int32 || tb.Kind() == types.String) {
+						msg = "line " + itoa(p.Fset.Position(x.Pos()).Line) + ": a byte is converted to a character (" + exprStr(x) + "): for bytes >= 0x80 that is not the character the string contains at this place but U+0080..U+00FF – a non-ASCII local part is mangled (quote/unquote no longer round-trips, the lookup key differs from the address)"
+					}
+				}
+				return true
+			})
+			nLoops += loops
+			if loops > 0 || msg != "" {
+				c.SawFunc(fi.Name())
+				c.Hold("R7", pk.Types.Name()+"."+refName(fi.Obj)+":characters", fi.Decl.Pos(), msg == "", msg)
+			}
+		})
+	}
+	if nLoops == 0 {
+		c.Fail("R7", "loops", token.NoPos, "undecided: no function that ranges over the characters of an address was found")
+	}
 }
 
 // checkASCIIPredicate finds the character loop of body and the branch that classifies a character as non-ASCII,
